@@ -73,6 +73,7 @@ def shrink_world(scn, fails, budget, index=None):
         new = copy.deepcopy(spec)
         new["masters"].pop()
         new["sparse"] = [s for s in new.get("sparse", []) if s["master"] < len(new["masters"])]
+        new["source_order"] = None
         nm = len(new["masters"])
         cand = with_spec(new)
         for st in cand["steps"]:
@@ -89,6 +90,7 @@ def shrink_world(scn, fails, budget, index=None):
             new = copy.deepcopy(spec)
             new[key] = []
             if key == "sparse":
+                new["source_order"] = None
                 for m in new["masters"]:
                     for ln in [s["layer"] for s in spec["sparse"]]:
                         m["layers"].pop(ln, None)
